@@ -1,5 +1,7 @@
 import StepModel.GenFiles
 import StepModel.GenCxxPassLemmas
+import StepModel.GenCollect
+import StepModel.GenCxxMarks
 /-!
 # C17 — the build-time scanner predicts exactly the files the C++ generator writes
 
@@ -504,6 +506,47 @@ theorem C17_passes_nonempty (f : SchemaFile) (pf : Schema → List Nat) (h : Cxx
     · simp [List.isEmpty_iff, ne]
     · simp [List.isEmpty_iff, ne]
   · exact absurd h (by simp)
+
+/-! ## before anything is written: the ComplexCollect is built (the step that made exp2cxx spin before fix C17-2) -/
+
+/-- **The constructor of `ComplexCollect` terminates**: with the walk of `ComplexCollect::remove` found in the tree (regenerated),
+    for every sequence of inserted lists — any names, the same name any number of times, any of them dependent — the loop that
+    drops the dependent lists is through after at most `number of lists + 1` rounds and leaves exactly the lists of the
+    entities without supertypes, in name order (`strcmp` assumed a strict total order, addresses distinct). -/
+theorem C17_collect_prune_terminates (lt : String → String → Bool) (h : AlphaOrder.StrictTotal lt) (cs : List Collect.CL)
+    (hd : Collect.DistinctIds cs) :
+    Collect.build lt Generated.CxxCollect.removeScan (cs.length + 1) cs
+      = some ((cs.foldl (fun l c => Collect.insert lt c l) []).filter (fun c => !c.dependent)) :=
+  Collect.build_current lt h cs hd
+
+/-- … which is false for the walk `while( cl && *cl < *c )` the tree had before: two lists of one name (two schemas declaring an
+    entity of the same name), the second one dependent — `remove` gives up, the cursor does not move, no amount of fuel suffices. -/
+theorem C17_collect_whileLess_witness (lt : String → String → Bool) (hirr : ∀ a, lt a a = false) :
+    ∀ fuel, Collect.prune lt .whileLess fuel
+      [{ id := 1, name := "e_el", dependent := false }, { id := 2, name := "e_el", dependent := true }] 0 = none :=
+  Collect.prune_whileLess_hangs lt hirr _ _ rfl (by decide) rfl rfl
+
+/-! ## the marks of the pass logic belong to the pass logic -/
+
+/-- **Every entity the pass logic marked CANPROCESS is printed** (each `ENTITYPrint` creates entity/Sdai<E>.h and .cc, the files
+    the scanner lists): in the tree no function linked into exp2cxx calls a libexpress function that stamps `search_id`, and
+    `search_id` is assigned only in multpass.c, SCOPEPrint and the ComplexCollect constructor (regenerated: `marksPrivate`);
+    then `SCOPEPrint`'s entity loop prints exactly the entities whose mark was CANPROCESS when the loop began, in dictionary
+    order, and leaves all other marks alone. -/
+theorem C17_canprocess_entities_printed :
+    Marks.marksPrivate = true ∧
+    ∀ (ents : List String), ents.Nodup → ∀ st : Marks.PrintSt,
+      (Marks.entityLoop (fun _ => []) ents st).printed = st.printed ++ ents.filter (fun e => st.marks e = .canprocess) ∧
+      ∀ x, x ∉ ents → (Marks.entityLoop (fun _ => []) ents st).marks x = st.marks x :=
+  ⟨by decide, fun ents hnd st => Marks.entityLoop_private ents hnd st⟩
+
+/-- … and it is false as soon as printing one entity runs a libexpress search over others: `part` (INVERSE … OF occurrence FOR
+    component, the attribute reaching `occurrence` through its second supertype `usage`) is printed first, the search stamps
+    `occurrence` and `usage`, and neither is printed although both were marked CANPROCESS. -/
+theorem C17_mark_clobber_witness :
+    (Marks.entityLoop (fun e => if e = "part" then ["occurrence", "identified", "usage"] else [])
+        ["part", "identified", "occurrence", "usage"] { marks := fun _ => .canprocess, printed := [] }).printed = ["part"] := by
+  decide
 
 /-- non-vacuity of the hypotheses above -/
 example : ∃ s : Schema, s.wf ∧ s.name.length ≤ maxIdentLen := ⟨{ name := "s", decls := [.type { name := "t", kind := .select_, hasHead := true }] },
